@@ -135,6 +135,20 @@ Theorem C04_resume_continues_same_instance_and_queue : forall roles s v b e s' o
 Proof. exact resume_request_applied. Qed.
 Print Assumptions C04_resume_continues_same_instance_and_queue.
 
+(* "Restart replaces the instance ... and then handles the queued messages": the step in which a living actor takes a restart
+   request shows OnRestarting handled by the present instance as its first Handled observation, leaves the actor restarting
+   (waiting for its children) or alive again (the restart completed within the step: C03_restart_completes_in_order says what
+   that step shows, C03_restart_installs_a_fresh_instance that the instance is new), and keeps every user message that was in
+   flight or queued, in order, at the front of its mailbox *)
+Theorem C04_restart_request_keeps_queue : forall roles s v b e s' o,
+  get s v = Some b -> a_inflight b = Some (MS e) -> e_msg e = SRestart -> a_st b = Alive -> is_sys (a_tok b) = false ->
+  kstep roles s (LRun (Z.of_nat v)) = Some (s', o) ->
+  exists b', get s' v = Some b' /\ a_tok b' = a_tok b /\ (a_st b' = Restarting \/ a_st b' = Alive) /\
+    hd_error (MV.Kernel.Restart.handled o) = Some (OH (a_tok b) (a_inst b) TRG 0%nat rNone) /\
+    exists app, seq b' = seq b ++ app.
+Proof. exact restart_request_applied. Qed.
+Print Assumptions C04_restart_request_keeps_queue.
+
 (* "Stop terminates it": the step in which a living or restarting actor takes a terminate request leaves it terminating,
    or terminated at once, under its address (the request is then handed to every child: Kernel.Hierarchy / C05) *)
 Theorem C04_stop_request_makes_receiver_terminating : forall roles s v b e g s' o,
